@@ -5,6 +5,7 @@ CONSTANTS
   Periods <- PeriodsB
   MaxNow = 3
   EnvOps = {"stop"}
+  Stalls = {}
   VirtualClock = TRUE
   Instant = FALSE
   UnstartedKillsInterval = TRUE
